@@ -1,7 +1,7 @@
 """C17 — prefix registration protocol (DESIGN §4 C17)."""
 import ast
 
-from .common import (ctx, family, returns, calls_in_ctx, reach_from_succ, site, srcs_text, resolve_call, const_bool, stmt_at, full_text, bound_args, call_arg)
+from .common import (ctx, family, returns, calls_in_ctx, reach_from_succ, site, srcs_text, resolve_call, const_bool, stmt_at, full_text, bound_args, call_arg, explore)
 from ..esc import esc_of, short
 from ..flow import callee_attr
 from ..loader import AnalysisError, norm
@@ -25,6 +25,11 @@ def status_tests(cx):
             l, r, op = n.ast.left, n.ast.comparators[0], n.ast.ops[0]
             if isinstance(l, ast.Constant):
                 l, r = r, l
+            if isinstance(l, ast.Name):
+                # the code read into a local first: `code = resp['status_code']` / `code, text = (resp['status_code'], resp['status_text'])`
+                ss = [s_.expr for s_ in cx.sources(n, l) if s_.kind == 'expr']
+                if len(ss) == 1 and isinstance(ss[0], ast.Subscript):
+                    l = ss[0]
             if isinstance(l, ast.Subscript) and isinstance(l.slice, ast.Constant) and l.slice.value == 'status_code' \
                     and isinstance(r, ast.Constant) and r.value == 200:
                 if isinstance(op, ast.Eq):
@@ -247,29 +252,65 @@ def run(R):
     # ---------------------------------------------------------------- make_command_v2 / make_command shape
     mk = ctx(R, 'ndn.app_support.nfd_mgmt.make_command_v2')
     inst = 'make_command_v2 :: name layout'
-    strs = [ast.unparse(x) for x in ast.walk(mk.f.node) if isinstance(x, ast.JoinedStr)]
-    want = {"f'/localhost/nfd/{module}/{command}'", "f'/localhop/nfd/{module}/{command}'"}
-    tests = [n for n in mk.cfg.nodes if n.kind == 'test']
     probs = []
-    if set(strs) != want:
-        probs.append((f'command prefixes are {sorted(strs)}', mk.f.node))
-    # localhost iff local face
-    for n in mk.cfg.nodes:
-        if n.kind == 'stmt' and isinstance(n.ast, ast.Assign) and isinstance(n.ast.value, ast.Call):
-            t = ast.unparse(n.ast.value)
-            if 'localhost' in t or 'localhop' in t:
-                lt = [tn for tn in tests if 'isLocalFace()' in full_text(mk, tn.ast)]
-                if not lt:
-                    probs.append(('scope is not chosen by the locality of the face', n.ast))
-                else:
-                    lab = 'localhost' in t
-                    if n.id in mk.cfg.reachable(removed_edges={(lt[0].id, lab)}):
-                        probs.append(('localhost/localhop chosen for the wrong kind of face', n.ast))
+    # command prefix per locality of the face, decided under the valuation "the face is local" / "is not local": the f-strings that
+    # are reachable, with a conditional inside an f-string folded under the same valuation
+    seen_prefix = {}
+    for local in (True, False):
+        def loc_atom(e, local=local):
+            t = full_text(mk, e)
+            if t.endswith('.isLocalFace()'):
+                return local
+            if 'isLocalFace()' in t and isinstance(e, ast.IfExp):
+                return None
+            if t == 'face' or t == 'face is not None':
+                return True
+            if t == 'face is None':
+                return False
+            return None
+        reach = explore(mk, loc_atom)
+        pre = set()
+        for n in mk.cfg.nodes:
+            if n.id not in reach or n.kind != 'stmt':
+                continue
+            for js in [x for x in ast.walk(n.ast) if isinstance(x, ast.JoinedStr)] if n.ast is not None else []:
+                txt = ''
+                for v in js.values:
+                    if isinstance(v, ast.Constant):
+                        txt += str(v.value)
+                    elif isinstance(v, ast.FormattedValue) and isinstance(v.value, ast.IfExp) and isinstance(v.value.body, ast.Constant) \
+                            and isinstance(v.value.orelse, ast.Constant):
+                        tt = v.value.test
+                        neg = isinstance(tt, ast.UnaryOp) and isinstance(tt.op, ast.Not)
+                        core = tt.operand if neg else tt
+                        val = loc_atom(core) if 'isLocalFace()' in full_text(mk, core) or True else None
+                        if isinstance(core, ast.Name):
+                            srcs_ = [full_text(mk, s_.expr) for s_ in mk.sources(n, core) if s_.kind == 'expr']
+                            val = local if any('isLocalFace()' in x for x in srcs_) else None
+                        if val is None:
+                            raise AnalysisError(f'make_command_v2: cannot decide `{ast.unparse(tt)}` inside the command prefix')
+                        val = (not val) if neg else val
+                        txt += str(v.value.body.value if val else v.value.orelse.value)
+                    else:
+                        txt += '{' + ast.unparse(v.value) + '}'
+                pre.add(txt)
+        seen_prefix[local] = pre
+    want_p = {True: {'/localhost/nfd/{module}/{command}'}, False: {'/localhop/nfd/{module}/{command}'}}
+    for local in (True, False):
+        if seen_prefix[local] != want_p[local]:
+            probs.append((f'for a {"local" if local else "non-local"} face the command prefix is {sorted(seen_prefix[local])}, expected {sorted(want_p[local])}', mk.f.node))
     apps = calls_in_ctx(mk, attr='append')
     if not any('cp.encode()' in ast.unparse(c) for (n, c) in apps):
         probs.append(('the encoded ControlParameters are not appended to the command name', mk.f.node))
     kwl = [x for x in ast.walk(mk.f.node) if isinstance(x, ast.For) and 'kwargs' in ast.unparse(x.iter)]
-    if len(kwl) != 1 or any(isinstance(x, (ast.Continue, ast.Break, ast.Return)) for x in ast.walk(kwl[0])):
+    kwn = [n for n in mk.cfg.nodes if n.kind == 'for' and kwl and n.ast is kwl[0]]
+    # every iteration stores the argument somewhere in the ControlParameters: the loop head cannot be reached again (nor the loop left)
+    # without passing a store
+    kstores = [n for n in mk.cfg.nodes if (n.kind == 'stmt' and n.ast is not None and (
+        any(isinstance(c, ast.Call) and isinstance(c.func, ast.Name) and c.func.id == 'setattr' for c in n.calls()) or
+        (isinstance(n.ast, ast.Assign) and ast.unparse(n.ast.targets[0]).startswith('cp.cp.'))))]
+    if len(kwl) != 1 or not kwn or any(isinstance(x, (ast.Break, ast.Return)) for x in ast.walk(kwl[0])) or \
+            kwn[0].id in reach_from_succ(mk.cfg, kwn[0], True, removed_nodes={n.id for n in kstores}, follow_exc=False):
         probs.append(('not every keyword argument is copied into the ControlParameters (a parameter can be skipped)', kwl[0] if kwl else mk.f.node))
     else:
         kv = [ast.unparse(e) for e in kwl[0].target.elts] if isinstance(kwl[0].target, ast.Tuple) else []
@@ -290,8 +331,12 @@ def run(R):
     seq = []
     for (n, c) in sorted(calls_in_ctx(m1, attr='append'), key=lambda x: x[0].id):
         t = ast.unparse(c)
+        # the SignatureValue component: Component.from_bytes(<buffer whose first octet is set to TypeNumber.SIGNATURE_VALUE>)
+        argn = c.args[0].args[0].id if c.args and isinstance(c.args[0], ast.Call) and c.args[0].args and isinstance(c.args[0].args[0], ast.Name) else None
+        is_sv = argn is not None and any(m_.kind == 'stmt' and isinstance(m_.ast, ast.Assign) and ast.unparse(m_.ast.targets[0]) == f'{argn}[0]'
+                                         and 'SIGNATURE_VALUE' in ast.unparse(m_.ast.value) for m_ in m1.cfg.nodes)
         seq.append('timestamp' if 'timestamp()' in t else 'nonce' if 'nonce' in t else 'siginfo' if 'SIGNATURE_INFO' in t
-                   else 'sigvalue' if 'from_bytes(buf)' in t else '?')
+                   else 'sigvalue' if is_sv else '?')
     if seq == ['timestamp', 'nonce', 'siginfo', 'sigvalue']:
         R.ok('C17.PRV.1', inst, site(m1, m1.f.node))
     else:
@@ -345,8 +390,11 @@ def run(R):
     inst = 'parse_response :: copies status and every ControlParametersValue field'
     loops = [n for n in px.cfg.nodes if n.kind == 'for' and '_encoded_fields' in ast.unparse(n.ast.iter)]
     probs = []
+    fstores = [n for n in px.cfg.nodes if n.kind == 'stmt' and isinstance(n.ast, ast.Assign) and isinstance(n.ast.targets[0], ast.Subscript)
+               and ast.unparse(n.ast.targets[0].slice).endswith('.name')]
     if len(loops) != 1 or ast.unparse(loops[0].ast.iter) != 'ControlParametersValue._encoded_fields' or any(
-            isinstance(x, (ast.Break, ast.Continue, ast.Return)) for x in ast.walk(loops[0].ast)):
+            isinstance(x, (ast.Break, ast.Return)) for x in ast.walk(loops[0].ast)) or \
+            loops[0].id in reach_from_succ(px.cfg, loops[0], True, removed_nodes={n.id for n in fstores}, follow_exc=False):
         probs.append('does not iterate all of ControlParametersValue._encoded_fields')
     stores = {}
     for n in px.cfg.nodes:
@@ -354,6 +402,10 @@ def run(R):
             for t in n.ast.targets:
                 if isinstance(t, ast.Subscript) and isinstance(t.slice, ast.Constant):
                     stores[t.slice.value] = ast.unparse(n.ast.value)
+            if isinstance(n.ast.value, ast.Dict):       # the result may start as a dict display
+                for k_, v_ in zip(n.ast.value.keys, n.ast.value.values):
+                    if isinstance(k_, ast.Constant):
+                        stores.setdefault(k_.value, ast.unparse(v_))
     if not stores.get('status_code', '').endswith('.status_code'):
         probs.append(f'status_code is taken from {stores.get("status_code")}')
     if not stores.get('status_text', '').endswith('.status_text'):
